@@ -27,7 +27,7 @@ IDS_MORE = ['combo-uper6', 'combo-choice-seq', 'combo-ref', 'combo-ext-nest', 'c
 def c11_bounds(tier):
     if tier == 'quick':
         return Bounds(int_abs=1 << 17, n_len=2, depth=4, str_len=2, free=True, margin=1 << 17, free_len_cap=4)
-    return Bounds(int_abs=1 << 40, n_len=3, depth=5, str_len=3, free=True, margin=1 << 66, free_len_cap=6)
+    return Bounds(int_abs=1 << 40, n_len=2, depth=5, str_len=3, free=True, margin=1 << 66, free_len_cap=5)
 
 
 def jobs_for(tier):
